@@ -323,7 +323,8 @@ def plan(prop, tier, seed, budget):
         P = dict(
             level='exploration',
             builds=[('vector', 'asan')] + ([] if q else [('vector', 'rel'), ('vector', 'fuzz')]),
-            jobs=[custom_jobs('vector', 'argtable', ['argtable-all', '1', '{out}']), g2_jobs('vector', 60000 if q else 350000)] +
+            jobs=[custom_jobs('vector', 'argtable', ['argtable-all', '1', '{out}']),
+                  custom_jobs('vector', 'huge', ['huge', str(seed), '{out}', 'h']), g2_jobs('vector', 60000 if q else 350000)] +
                  ([] if q else [g1_jobs('vector', ['argtable:%d:%d:1:2:1' % (e, b) for e in range(9) for b in range(3)], 3000000),
                                 g2_jobs('vector', 50000, variant='rel'), g3_jobs('vector', 300000)]),
             py=[] if q else [g3_stats('vector')],
@@ -334,7 +335,8 @@ def plan(prop, tier, seed, budget):
                  'interposer: cap >= size, data is the one live block and its size >= (cap+1)*es in 128-bit arithmetic, at(i) == data+i*es, '
                  'at aborts iff i >= size, reserve never aborts and is a quiet no-op when unsatisfiable, resize aborts iff growth cannot be '
                  'satisfied, bytes preserved, ctor/dtor exactly once per slot entering/leaving [0,size). G1 = every single op x full '
-                 'symbolic table x 9 element sizes x 3 base states (exhaustive). Non-trivial: >= 1 request whose byte count is '
+                 'symbolic table x 9 element sizes x 3 base states (exhaustive); plus an arithmetic-only engine on vectors of 2^31..2^33 elements '
+                 '(untouched MAP_NORESERVE mappings). Non-trivial: >= 1 request whose byte count is '
                  'unrepresentable, >= 1 reallocation of a non-empty vector that moved the data, and ctor+dtor enabled.',
             assumptions=COMMON_ASSUME + ['requests above 1 MiB are refused by the interposer ("cannot be satisfied")'],
         )
